@@ -177,24 +177,24 @@ func (e naiveEngine) oneStepEvalPremise(premise ast.Term, subst unionfind.UnionF
 			return nil
 		})
 	case ast.NegAtom:
-		a, err := functional.EvalAtom(p.Atom, subst)
+		// Same solutions as the semi-naive evaluator; errors are treated as "no solution".
+		negSolutions, err := premiseNegAtom(p.Atom, e.store, subst)
 		if err != nil {
 			return nil
 		}
-		e.store.GetFacts(a, func(fact ast.Atom) error {
-			if _, err := unionfind.UnifyTermsExtend(p.Atom.Args, fact.Args, subst); err != nil {
-				solutions = append(solutions, subst)
-			}
-			return nil
-		})
+		return negSolutions
 	case ast.Eq:
-		if newsubst, err := unionfind.UnifyTermsExtend([]ast.BaseTerm{p.Left}, []ast.BaseTerm{p.Right}, subst); err == nil {
-			solutions = append(solutions, newsubst)
+		eqSolutions, err := premiseEq(p.Left, p.Right, subst)
+		if err != nil {
+			return nil
 		}
+		return eqSolutions
 	case ast.Ineq:
-		if _, err := unionfind.UnifyTermsExtend([]ast.BaseTerm{p.Left}, []ast.BaseTerm{p.Right}, subst); err != nil {
-			solutions = append(solutions, subst)
+		ineqSolutions, err := premiseIneq(p.Left, p.Right, subst)
+		if err != nil {
+			return nil
 		}
+		return ineqSolutions
 	}
 	return solutions
 }
